@@ -46,6 +46,11 @@ def run(tier, seed, res, lean):
                     res.violations.append(Violation('c12-crash', p[:500], {'suite': 'S-CRASH', 'what': what, 'msg': p}))
         known = [v for v in res.violations if v.kind == 'c12-labels-file']
         res.violations[:] = [v for v in res.violations if v.kind != 'c12-labels-file'][:8] + known[:1]
+        # several index folders: an entry known through one folder only, then lost
+        il_runs, il_bad = suite_crash.run_index_levels(seed)
+        for b in il_bad[:3]:
+            res.violations.append(Violation('c12-index-levels', b['msg'][:400], {'suite': 'S-CRASH/index-levels', **b}))
+        res.coverage['index_level_runs'] = il_runs
         res.coverage.update({
             'evaluations': len(jobs), 'distinct_nontrivial': checked, 'rule': RULE, 'programs': len(combos),
             'disagreements_checked': 0, 'exhaustive': True,
